@@ -462,6 +462,17 @@ INJECTOR_NAMES_2 = {
 
 # ---- round 10 (hunt on the unchanged tree): reproducers of the repaired defects and of the recorded findings
 ROUND10 = {
+    'LOCAL_REF_CLOSURE': 'package main\n\nimport "github.com/mazrean/kessoku"\n\ntype App struct{ Limit int }\n\nfunc NewApp(n int) *App { return &App{n} }\n\nvar limit = 1\n\nfunc setup() {\n\tlimit := 2\n\t_ = kessoku.Inject[*App]("InitApp",\n\t\tkessoku.Provide(func() int { return limit }),\n\t\tkessoku.Provide(NewApp),\n\t)\n}\n\nfunc main() {\n\tsetup()\n\tif InitApp().Limit != 2 {\n\t\tpanic("wrong result")\n\t}\n}\n',
+    'LOCAL_REF_IN_SET': 'package main\n\nimport "github.com/mazrean/kessoku"\n\ntype App struct{ Limit int }\n\nfunc NewApp(n int) *App { return &App{n} }\n\nvar limit = 1\n\nfunc setup() {\n\tlimit := 2\n\tproviders := kessoku.Set(kessoku.Value(limit), kessoku.Provide(NewApp))\n\t_ = kessoku.Inject[*App]("InitApp", providers)\n}\n\nfunc main() {\n\tsetup()\n\tif InitApp().Limit != 2 {\n\t\tpanic("wrong result")\n\t}\n}\n',
+    'LOCAL_SET_SAME_NAME': 'package main\n\nimport "github.com/mazrean/kessoku"\n\ntype A struct{ s string }\ntype B struct{ a *A }\ntype C struct{ s string }\ntype D struct{ c *C }\n\nfunc NewA() *A     { return &A{"a"} }\nfunc NewB(a *A) *B { return &B{a} }\nfunc NewC() *C     { return &C{"c"} }\nfunc NewD(c *C) *D { return &D{c} }\n\nfunc first() {\n\tset := kessoku.Set(kessoku.Provide(NewA), kessoku.Provide(NewB))\n\t_ = kessoku.Inject[*B]("InitB", set)\n}\n\nfunc second() {\n\tset := kessoku.Set(kessoku.Provide(NewC), kessoku.Provide(NewD))\n\t_ = kessoku.Inject[*D]("InitD", set)\n}\n\nfunc main() {\n\tvar f func() *B = InitB\n\tvar g func() *D = InitD\n\tif f().a.s != "a" || g().c.s != "c" {\n\t\tpanic("wrong result")\n\t}\n}\n',
+    'LOCAL_SET_SAME_NAME_CYCLE': 'package main\n\nimport "github.com/mazrean/kessoku"\n\ntype A struct{ s string }\ntype B struct{ a *A }\ntype C struct{ s string }\ntype D struct{ c *C }\n\nfunc NewA() *A     { return &A{"a"} }\nfunc NewB(a *A) *B { return &B{a} }\nfunc NewC(d *D) *C { return &C{"c"} }\nfunc NewD(c *C) *D { return &D{c} }\n\nfunc first() {\n\tset := kessoku.Set(kessoku.Provide(NewA), kessoku.Provide(NewB))\n\t_ = kessoku.Inject[*B]("InitB", set)\n}\n\nfunc second() {\n\tset := kessoku.Set(kessoku.Provide(NewC), kessoku.Provide(NewD))\n\t_ = kessoku.Inject[*D]("InitD", set)\n}\n\nfunc main() {\n}\n',
+    'NAME_TAKEN_DOT_LIB': 'package lib\n\ntype Tool struct{}\n\nfunc InitApp() *Tool { return &Tool{} }\n',
+    'NAME_TAKEN_DOT_HELPERS': 'package main\n\nimport . "vscratch/name_taken_dot/lib"\n\nvar tool = InitApp()\n',
+    'NAME_TAKEN_DOT': 'package main\n\nimport "github.com/mazrean/kessoku"\n\ntype Svc struct{}\n\nfunc NewSvc() *Svc { return &Svc{} }\n\nvar _ = kessoku.Inject[*Svc]("InitApp", kessoku.Provide(NewSvc))\n\nfunc main() { _ = tool }\n',
+    'SIBLING_CONF': 'package conf\n\ntype Conf struct{ N int }\n',
+    'SIBLING_APP': 'package app\n\nimport "vscratch/inaccessible_sibling/app/internal/conf"\n\ntype Svc struct{ C *conf.Conf }\ntype Cache struct{}\n\nfunc NewConf() *conf.Conf            { return &conf.Conf{N: 1} }\nfunc NewCache() *Cache               { return &Cache{} }\nfunc NewSvc(c *conf.Conf, k *Cache) *Svc { return &Svc{c} }\n',
+    'SIBLING_K': 'package main\n\nimport (\n\t"context"\n\n\t"github.com/mazrean/kessoku"\n\t"vscratch/inaccessible_sibling/app"\n)\n\nvar _ = kessoku.Inject[*app.Svc]("InitSvc", kessoku.Async(kessoku.Provide(app.NewConf)), kessoku.Async(kessoku.Provide(app.NewCache)), kessoku.Provide(app.NewSvc))\n\nfunc main() { _ = InitSvc(context.Background()) }\n',
+    'BIND_STRUCT_NESTED': 'package main\n\nimport "github.com/mazrean/kessoku"\n\ntype Logger interface{ Log() string }\ntype FileLogger struct {\n\tLevel Level\n\tpath  string\n}\ntype Level int\n\nfunc (f *FileLogger) Log() string { return f.path }\n\ntype Config struct{ Logger *FileLogger }\n\nfunc NewConfig() *Config { return &Config{Logger: &FileLogger{Level: 2, path: "/var/log"}} }\n\ntype Server struct {\n\tL  Logger\n\tLv Level\n}\n\nfunc NewServer(l Logger, lv Level) *Server { return &Server{l, lv} }\n\nvar _ = kessoku.Inject[*Server]("InitNested", kessoku.Provide(NewConfig), kessoku.Struct[*Config](), kessoku.Bind[Logger](kessoku.Struct[*FileLogger]()), kessoku.Provide(NewServer))\nvar _ = kessoku.Inject[*Server]("InitNested2", kessoku.Bind[Logger](kessoku.Struct[*FileLogger]()), kessoku.Provide(NewServer), kessoku.Struct[*Config](), kessoku.Provide(NewConfig))\n\nfunc main() {\n\tvar f func() *Server = InitNested\n\tvar g func() *Server = InitNested2\n\tif f().L.Log() != "/var/log" || g().Lv != 2 {\n\t\tpanic("wrong result")\n\t}\n}\n',
     'INACCESSIBLE_PARAM_LIB': 'package lib\n\ntype config struct{ N int }\ntype Server struct{ C config }\n\nfunc NewConfig() config          { return config{N: 1} }\nfunc NewServer(c config) *Server { return &Server{c} }\n',
     'INACCESSIBLE_PARAM': 'package main\n\nimport (\n\t"github.com/mazrean/kessoku"\n\t"vscratch/inaccessible_param/lib"\n)\n\nvar _ = kessoku.Inject[*lib.Server]("InitServer", kessoku.Provide(lib.NewServer))\n\nfunc main() {}\n',
     'LOCAL_REF_SHADOW': 'package main\n\nimport "github.com/mazrean/kessoku"\n\ntype Config struct{ Port int }\ntype Server struct{ Cfg Config }\n\nfunc NewServer(c Config) *Server { return &Server{c} }\n\nvar port = 1 // default\n\nfunc setup() {\n\tport := 8080\n\t_ = kessoku.Inject[*Server]("InitServer",\n\t\tkessoku.Value(Config{Port: port}),\n\t\tkessoku.Provide(NewServer),\n\t)\n}\n\nfunc main() {\n\tsetup()\n\tif InitServer().Cfg.Port != 8080 {\n\t\tpanic("wrong result")\n\t}\n}\n',
@@ -692,6 +703,13 @@ def _stage(seed, tier, key="N-x"):
     pkgs.append(("dot_qualifier_param", {"k.go": R["DOT_QUALIFIER_PARAM"], "config/c.go": R["IMPORT_LOCAL_CONFIG"]}, ["k.go"], None, dict(kind="imports: the qualifier written for a dot import is a parameter of the copied literal", run=True)))
     pkgs.append(("dot_qualifier_local", {"k.go": R["DOT_QUALIFIER_LOCAL"], "config/c.go": R["DOT_QUALIFIER_LOCAL_LIB"]}, ["k.go"], None, dict(kind="imports: the qualifier written for a dot import is a local of the copied literal", run=True)))
     pkgs.append(("set_multi_value", {"k.go": R["SET_MULTI_VALUE"]}, ["k.go"], None, dict(kind="Set variables initialised from one multi-value call", crash_check=True)))
+    pkgs.append(("local_ref_closure", {"k.go": R["LOCAL_REF_CLOSURE"]}, ["k.go"], None, dict(kind="a function literal that captures a local of the enclosing function", run=True, value_check=True, expect_refused="is local to the function")))
+    pkgs.append(("local_ref_in_set", {"k.go": R["LOCAL_REF_IN_SET"]}, ["k.go"], None, dict(kind="a member of a := Set that names a local of the enclosing function", run=True, value_check=True, expect_refused="is local to the function")))
+    pkgs.append(("local_set_same_name", {"k.go": R["LOCAL_SET_SAME_NAME"]}, ["k.go"], None, dict(kind="two functions of one file each holding a Set in a local of the same name", run=True, value_check=True, expect_params={"k_band.go": {"InitB": [], "InitD": []}})))
+    pkgs.append(("local_set_same_name_cycle", {"k.go": R["LOCAL_SET_SAME_NAME_CYCLE"]}, ["k.go"], None, dict(kind="the same, a cycle planted in the second function's Set", expect_refused="circular dependency")))
+    pkgs.append(("name_taken_dot", {"k.go": R["NAME_TAKEN_DOT"], "helpers.go": R["NAME_TAKEN_DOT_HELPERS"], "lib/l.go": R["NAME_TAKEN_DOT_LIB"]}, ["k.go"], None, dict(kind="an injector named like an identifier another file dot-imports", run=True)))
+    pkgs.append(("inaccessible_sibling", {"apptool/k.go": R["SIBLING_K"], "app/a.go": R["SIBLING_APP"], "app/internal/conf/c.go": R["SIBLING_CONF"]}, ["apptool/k.go"], None, dict(kind="a type of an internal package of a SIBLING directory (apptool next to app)", vet_pkgs=["./apptool"], run=True, run_pkgs=["./apptool"])))
+    pkgs.append(("bind_struct_nested", {"k.go": R["BIND_STRUCT_NESTED"]}, ["k.go"], None, dict(kind="Bind over a Struct expansion whose struct is a field of another expanded struct, both orders", run=True, value_check=True, expect_params={"k_band.go": {"InitNested": [], "InitNested2": []}})))
     pkgs.append(("local_set", {"k.go": R["LOCAL_SET"]}, ["k.go"], None, dict(kind="a Set held in a := variable", run=True, value_check=True, expect_params={"k_band.go": {"InitApp": []}})))
     pkgs.append(("shared_set_dot", {"k.go": R["SHARED_SET_DOT"], "lib/l.go": R["SHARED_SET_DOT_LIB"]}, ["k.go"], None, dict(kind="imports: a Set shared by two injectors, one provider dot-imported", run=True)))
     pkgs.append(("name_taken_a", {"k.go": R["NAME_TAKEN_A"]}, ["k.go"], None, dict(kind="an injector named like a function of the package", run=True)))
